@@ -1,5 +1,6 @@
 import Ubx.Proofs.Frames
 import Ubx.Proofs.Consume
+import Ubx.Model.Helpers
 /-!
 # C11 — protfilter and parsing flags only filter; they never change what is framed
 -/
@@ -91,5 +92,112 @@ theorem C11_parsing_true_sublist (S : Src σ) (nmeaHdr : Byte → Bool) (O : Ora
       | rejected c => simp; exact List.Sublist.cons _ ih
       | crash c => simp; exact List.Sublist.cons _ ih
     · simp [hf]; exact ih
+
+end Ubx
+
+namespace Ubx
+variable {σ : Type}
+
+/-- what the dispatch looked at when it delimited a frame: its first two bytes -/
+theorem delimit_frame_hdr (S : Src σ) (all : σ → Bytes) (L : Linear S all) (nh : Byte → Bool) (s s' : σ) (p : Proto) (raw : Bytes)
+    (h : delimit S nh s = .frame p raw s') :
+    ∃ b1 b2 rest, raw = b1 :: b2 :: rest ∧
+      ((p = .ubx ∧ b1 = 0xb5 ∧ b2 = 0x62) ∨
+       (p = .nmea ∧ ¬(b1 = 0xb5 ∧ b2 = 0x62) ∧ b1 = 0x24 ∧ nh b2 = true) ∨
+       (p = .rtcm ∧ ¬(b1 = 0xb5 ∧ b2 = 0x62) ∧ ¬(b1 = 0x24 ∧ nh b2 = true) ∧ b1 = 0xd3 ∧ b2 &&& 0xfc = 0)) := by
+  unfold delimit at h
+  cases h1 : S.read 1 s with
+  | eof => rw [h1] at h; cases h
+  | short => rw [h1] at h; cases h
+  | ok d1 s1 =>
+    rw [h1] at h
+    obtain ⟨_, l1⟩ := L.read 1 s d1 s1 h1
+    obtain ⟨b1, rfl⟩ : ∃ b, d1 = [b] := by
+      match d1, l1 with
+      | [b], _ => exact ⟨b, rfl⟩
+    simp only [List.getD_cons_zero] at h
+    split at h
+    · cases h
+    · cases h2 : S.read 1 s1 with
+      | eof => rw [h2] at h; cases h
+      | short => rw [h2] at h; cases h
+      | ok d2 s2 =>
+        rw [h2] at h
+        obtain ⟨_, l2⟩ := L.read 1 s1 d2 s2 h2
+        obtain ⟨b2, rfl⟩ : ∃ b, d2 = [b] := by
+          match d2, l2 with
+          | [b], _ => exact ⟨b, rfl⟩
+        simp only [List.getD_cons_zero] at h
+        split at h
+        · rename_i hu
+          cases h3 : S.read 4 s2 with
+          | eof => rw [h3] at h; cases h
+          | short => rw [h3] at h; cases h
+          | ok hd s3 =>
+            rw [h3] at h
+            simp only at h
+            cases h4 : S.read (ubxLen hd) s3 with
+            | eof => rw [h4] at h; cases h
+            | short => rw [h4] at h; cases h
+            | ok body s4 =>
+              rw [h4] at h; cases h
+              exact ⟨b1, b2, hd ++ body, by simp, Or.inl ⟨rfl, hu.1, hu.2⟩⟩
+        · rename_i hu
+          split at h
+          · rename_i hn
+            cases h3 : S.line s2 with
+            | eof => rw [h3] at h; cases h
+            | short => rw [h3] at h; cases h
+            | ok l s3 =>
+              rw [h3] at h; cases h
+              exact ⟨b1, b2, l, by simp, Or.inr (Or.inl ⟨rfl, hu, hn.1, hn.2⟩)⟩
+          · rename_i hn
+            split at h
+            · rename_i hr
+              cases h3 : S.read 1 s2 with
+              | eof => rw [h3] at h; cases h
+              | short => rw [h3] at h; cases h
+              | ok d3 s3 =>
+                rw [h3] at h
+                simp only at h
+                cases h4 : S.read (rtcmLen d3 [b2]) s3 with
+                | eof => rw [h4] at h; cases h
+                | short => rw [h4] at h; cases h
+                | ok pl s4 =>
+                  rw [h4] at h
+                  simp only at h
+                  cases h5 : S.read 3 s4 with
+                  | eof => rw [h5] at h; cases h
+                  | short => rw [h5] at h; cases h
+                  | ok crc s5 =>
+                    rw [h5] at h; cases h
+                    exact ⟨b1, b2, d3 ++ pl ++ crc, by simp [List.append_assoc], Or.inr (Or.inr ⟨rfl, hu, hn, hr.1, hr.2⟩)⟩
+            · cases h
+
+/-- the helper `protocol()` classifies every raw item exactly as the reader's header dispatch did -/
+theorem C11_protocol_agrees_with_dispatch (S : Src σ) (all : σ → Bytes) (L : Linear S all) (hdr2 : List Byte)
+    (s s' : σ) (p : Proto) (raw : Bytes) (h : delimit S (fun b => hdr2.contains b) s = .frame p raw s') :
+    protocol hdr2 raw = .ok p.bit := by
+  obtain ⟨b1, b2, rest, rfl, hc⟩ := delimit_frame_hdr S all L _ s s' p _ h
+  have hs : slice (b1 :: b2 :: rest) 0 2 = [b1, b2] := by simp [slice]
+  unfold protocol
+  rw [hs]
+  rcases hc with ⟨rfl, rfl, rfl⟩ | ⟨rfl, hu, rfl, hn⟩ | ⟨rfl, hu, hn, rfl, hr⟩
+  · simp [Proto.bit]
+  · have h1 : ¬ ([0x24, b2] = ([0xb5, 0x62] : Bytes)) := by
+      intro hc; injection hc with a _; exact absurd a (by decide)
+    simp only [h1, if_false]
+    have : ([0x24, b2] : Bytes).length = 2 ∧ ([0x24, b2] : Bytes).getD 0 0 = 0x24 ∧ hdr2.contains (([0x24, b2] : Bytes).getD 1 0) = true := by
+      simpa using hn
+    rw [if_pos this]; rfl
+  · have h1 : ¬ ([0xd3, b2] = ([0xb5, 0x62] : Bytes)) := by
+      intro hc; injection hc with a _; exact absurd a (by decide)
+    simp only [h1, if_false]
+    have : ¬ (([0xd3, b2] : Bytes).length = 2 ∧ ([0xd3, b2] : Bytes).getD 0 0 = 0x24 ∧ hdr2.contains (([0xd3, b2] : Bytes).getD 1 0) = true) := by
+      intro hc
+      have h2 := hc.2.1
+      simp at h2
+    rw [if_neg this]
+    simp [hr, Proto.bit]
 
 end Ubx
